@@ -593,6 +593,261 @@ print($f())
     return $g()()
 print($f())
 '''),
+    ('introspection-in-class-body-locals', '''def $f():
+    $x = "a"
+    $y = "y"
+    def put(v):
+        nonlocal $x
+        $x = v
+    class $C:
+        before = $x + $y
+        locals()
+        put("b")
+        after = $x + $y
+        names = sorted(k for k in locals() if k[:1] != "_")
+    return $C.before, $C.after, $C.names
+print($f())
+'''),
+    ('introspection-class-binds-same-name-locals', '''def $f():
+    $x = "f"
+    class $C:
+        $x = "c"
+        locals()
+        def m(self):
+            return $x
+        locals()
+    return $C.$x, $C().m()
+print($f())
+'''),
+    ('introspection-in-function-locals', '''def $f():
+    $x = "a"
+    def $g():
+        nonlocal $x
+        first = $x
+        locals()
+        $x = "b"
+        locals()
+        return first + $x
+    r = $g()
+    return r, $x
+print($f())
+'''),
+    ('introspection-in-nested-class-locals', '''def $f($x):
+    def $g():
+        class $C:
+            locals()
+            v = $x
+            class D:
+                locals()
+                w = $x
+        return $C.v + $C.D.w
+    return $g()
+print($f("p"))
+'''),
+    ('introspection-in-class-body-vars', '''def $f():
+    $x = "a"
+    $y = "y"
+    def put(v):
+        nonlocal $x
+        $x = v
+    class $C:
+        before = $x + $y
+        vars()
+        put("b")
+        after = $x + $y
+        names = sorted(k for k in locals() if k[:1] != "_")
+    return $C.before, $C.after, $C.names
+print($f())
+'''),
+    ('introspection-class-binds-same-name-vars', '''def $f():
+    $x = "f"
+    class $C:
+        $x = "c"
+        vars()
+        def m(self):
+            return $x
+        vars()
+    return $C.$x, $C().m()
+print($f())
+'''),
+    ('introspection-in-function-vars', '''def $f():
+    $x = "a"
+    def $g():
+        nonlocal $x
+        first = $x
+        vars()
+        $x = "b"
+        vars()
+        return first + $x
+    r = $g()
+    return r, $x
+print($f())
+'''),
+    ('introspection-in-nested-class-vars', '''def $f($x):
+    def $g():
+        class $C:
+            vars()
+            v = $x
+            class D:
+                vars()
+                w = $x
+        return $C.v + $C.D.w
+    return $g()
+print($f("p"))
+'''),
+    ('introspection-in-class-body-eval', '''def $f():
+    $x = "a"
+    $y = "y"
+    def put(v):
+        nonlocal $x
+        $x = v
+    class $C:
+        before = $x + $y
+        eval("1")
+        put("b")
+        after = $x + $y
+        names = sorted(k for k in locals() if k[:1] != "_")
+    return $C.before, $C.after, $C.names
+print($f())
+'''),
+    ('introspection-class-binds-same-name-eval', '''def $f():
+    $x = "f"
+    class $C:
+        $x = "c"
+        eval("1")
+        def m(self):
+            return $x
+        eval("1")
+    return $C.$x, $C().m()
+print($f())
+'''),
+    ('introspection-in-function-eval', '''def $f():
+    $x = "a"
+    def $g():
+        nonlocal $x
+        first = $x
+        eval("1")
+        $x = "b"
+        eval("1")
+        return first + $x
+    r = $g()
+    return r, $x
+print($f())
+'''),
+    ('introspection-in-nested-class-eval', '''def $f($x):
+    def $g():
+        class $C:
+            eval("1")
+            v = $x
+            class D:
+                eval("1")
+                w = $x
+        return $C.v + $C.D.w
+    return $g()
+print($f("p"))
+'''),
+    ('introspection-in-class-body-exec', '''def $f():
+    $x = "a"
+    $y = "y"
+    def put(v):
+        nonlocal $x
+        $x = v
+    class $C:
+        before = $x + $y
+        exec("pass")
+        put("b")
+        after = $x + $y
+        names = sorted(k for k in locals() if k[:1] != "_")
+    return $C.before, $C.after, $C.names
+print($f())
+'''),
+    ('introspection-class-binds-same-name-exec', '''def $f():
+    $x = "f"
+    class $C:
+        $x = "c"
+        exec("pass")
+        def m(self):
+            return $x
+        exec("pass")
+    return $C.$x, $C().m()
+print($f())
+'''),
+    ('introspection-in-function-exec', '''def $f():
+    $x = "a"
+    def $g():
+        nonlocal $x
+        first = $x
+        exec("pass")
+        $x = "b"
+        exec("pass")
+        return first + $x
+    r = $g()
+    return r, $x
+print($f())
+'''),
+    ('introspection-in-nested-class-exec', '''def $f($x):
+    def $g():
+        class $C:
+            exec("pass")
+            v = $x
+            class D:
+                exec("pass")
+                w = $x
+        return $C.v + $C.D.w
+    return $g()
+print($f("p"))
+'''),
+    ('introspection-in-class-body-globals', '''def $f():
+    $x = "a"
+    $y = "y"
+    def put(v):
+        nonlocal $x
+        $x = v
+    class $C:
+        before = $x + $y
+        globals()
+        put("b")
+        after = $x + $y
+        names = sorted(k for k in locals() if k[:1] != "_")
+    return $C.before, $C.after, $C.names
+print($f())
+'''),
+    ('introspection-class-binds-same-name-globals', '''def $f():
+    $x = "f"
+    class $C:
+        $x = "c"
+        globals()
+        def m(self):
+            return $x
+        globals()
+    return $C.$x, $C().m()
+print($f())
+'''),
+    ('introspection-in-function-globals', '''def $f():
+    $x = "a"
+    def $g():
+        nonlocal $x
+        first = $x
+        globals()
+        $x = "b"
+        globals()
+        return first + $x
+    r = $g()
+    return r, $x
+print($f())
+'''),
+    ('introspection-in-nested-class-globals', '''def $f($x):
+    def $g():
+        class $C:
+            globals()
+            v = $x
+            class D:
+                globals()
+                w = $x
+        return $C.v + $C.D.w
+    return $g()
+print($f("p"))
+'''),
     # ---- declarations the language forbids
     ('E:nonlocal-without-binding', 'def $f():\n    nonlocal $x\n    $x = 1\n'),
     ('E:nonlocal-without-binding-global-exists', '$x = 1\ndef $f():\n    nonlocal $x\n'),
